@@ -1459,7 +1459,46 @@ fn pick_cropped_region<'a>(
         .or_else(|| regions.first())
 }
 
+/// `fmt::Write` adapter that neutralises terminal control characters in everything that is
+/// written through it.
+///
+/// Messages reflect input-derived text (keys, field and variant names, scalar values, serde's
+/// custom messages), which may carry escape sequences; the source snippet is sanitised where
+/// it is cropped, this covers the rest of a rendered report.
+struct TerminalSafe<'a, 'b>(&'a mut fmt::Formatter<'b>);
+
+impl fmt::Write for TerminalSafe<'_, '_> {
+    fn write_str(&mut self, s: &str) -> fmt::Result {
+        if crate::de_snipped::is_terminal_snippet_clean(s) {
+            self.0.write_str(s)
+        } else {
+            let clean = crate::de_snipped::sanitize_terminal_snippet_preserve_len(s.to_owned());
+            self.0.write_str(&clean)
+        }
+    }
+}
+
+/// Render `err` (message, location and source snippets) with terminal control characters
+/// neutralised; all `Display` / `render*` paths go through here.
 fn fmt_error_rendered(
+    f: &mut fmt::Formatter<'_>,
+    err: &Error,
+    options: RenderOptions<'_>,
+) -> fmt::Result {
+    struct Unsanitized<'a> {
+        err: &'a Error,
+        options: RenderOptions<'a>,
+    }
+    impl fmt::Display for Unsanitized<'_> {
+        fn fmt(&self, f: &mut fmt::Formatter<'_>) -> fmt::Result {
+            fmt_error_rendered_unsanitized(f, self.err, self.options)
+        }
+    }
+    use fmt::Write as _;
+    write!(TerminalSafe(f), "{}", Unsanitized { err, options })
+}
+
+fn fmt_error_rendered_unsanitized(
     f: &mut fmt::Formatter<'_>,
     err: &Error,
     options: RenderOptions<'_>,
@@ -1482,7 +1521,7 @@ fn fmt_error_rendered(
                     writeln!(f)?;
                 }
                 first = false;
-                fmt_error_rendered(f, err, options)?;
+                fmt_error_rendered_unsanitized(f, err, options)?;
             }
             Ok(())
         }
@@ -1500,7 +1539,7 @@ fn fmt_error_rendered(
                     writeln!(f)?;
                 }
                 first = false;
-                fmt_error_rendered(f, err, options)?;
+                fmt_error_rendered_unsanitized(f, err, options)?;
             }
             Ok(())
         }
@@ -1912,7 +1951,7 @@ fn fmt_error_with_snippets_offset(
 
     // Keep existing snippet output if the nested error is already wrapped.
     if let Error::WithSnippet { .. } = err {
-        return fmt_error_rendered(f, err, RenderOptions::new(formatter));
+        return fmt_error_rendered_unsanitized(f, err, RenderOptions::new(formatter));
     }
 
     #[cfg(feature = "garde")]
